@@ -4,10 +4,12 @@ cd "$(dirname "$0")" || exit 2
 set -e
 command -v java >/dev/null
 test -f /opt/veriftools/tla/tla2tools.jar
+mkdir -p .work
 cd spec
-for m in BiomTrace.tla MC_Gen.tla BiomErrTrace.tla MC_Err.tla; do
-  java -cp /opt/veriftools/tla/tla2tools.jar:/opt/veriftools/tla/CommunityModules-deps.jar tla2sany.SANY "$m" >/tmp/verif_sany.log 2>&1 || { cat /tmp/verif_sany.log; exit 1; }
+for m in BiomTrace.tla MC_Gen.tla BiomErrTrace.tla MC_Err.tla BiomRecTrace.tla BiomDrawTrace.tla MC_Draws.tla MC_Lemmas.tla; do
+  java -cp /opt/veriftools/tla/tla2tools.jar:/opt/veriftools/tla/CommunityModules-deps.jar tla2sany.SANY "$m" >../.work/sany.log 2>&1 || { cat ../.work/sany.log; exit 1; }
 done
 cd ..
-PYTHONPATH=/repo /venv/bin/python -c "import biom, harness.driver, harness.driver_err, harness.h5raw" 
+PYTHONPATH=/repo /venv/bin/python -c "import biom, harness.driver, harness.driver_err, harness.h5raw, harness.draws, harness.recorder, harness.check" 
+command -v tlapm >/dev/null || echo "note: tlapm not found (only the thorough tier of C20 uses it)"
 echo "setup ok"
